@@ -184,8 +184,19 @@ def selftest_main(seed, which=None):
         pid = meta["property"]
         scratch = tempfile.mkdtemp(prefix="lesim-seed.")
         try:
-            a = subprocess.run("git -C %s archive %s lib include util | tar -x -C %s" % (driver.REPO, base, scratch), shell=True, capture_output=True, text=True)
-            b = subprocess.run(["patch", "-p1", "-s", "-d", scratch, "-i", os.path.join(d, "patch.diff")], capture_output=True, text=True)
+            # preferably on top of the CURRENT tree (so that a defect repaired after the change was written cannot be what
+            # the check reports); if the change does not apply there, on the commit it was written against
+            for sub in ("lib", "include", "util"):
+                shutil.copytree(os.path.join(driver.REPO, sub), os.path.join(scratch, sub))
+            a = subprocess.run(["true"], capture_output=True, text=True)
+            b = subprocess.run(["patch", "-p1", "-s", "-f", "--dry-run", "-d", scratch, "-i", os.path.join(d, "patch.diff")], capture_output=True, text=True)
+            if b.returncode == 0:
+                b = subprocess.run(["patch", "-p1", "-s", "-f", "-d", scratch, "-i", os.path.join(d, "patch.diff")], capture_output=True, text=True)
+            else:
+                for sub in ("lib", "include", "util"):
+                    shutil.rmtree(os.path.join(scratch, sub), ignore_errors=True)
+                a = subprocess.run("git -C %s archive %s lib include util | tar -x -C %s" % (driver.REPO, base, scratch), shell=True, capture_output=True, text=True)
+                b = subprocess.run(["patch", "-p1", "-s", "-d", scratch, "-i", os.path.join(d, "patch.diff")], capture_output=True, text=True)
             if a.returncode != 0 or b.returncode != 0:
                 print("SELFTEST seeded %s: cannot prepare sources: %s %s" % (name, a.stderr[-200:], b.stdout[-200:]))
                 rc = 2
